@@ -941,6 +941,70 @@ def oracle_funsor(r):
     return Tensor(np_eval(r), OrderedDict((n, Bint[s]) for n, s in leaf[1]), "real")
 
 
+# ---------------------------------------------------------------------------------------------
+# non-finite data (-inf cells and rows, +inf, nan) under algebraic simplifications
+# ---------------------------------------------------------------------------------------------
+
+NONFINITE_SHAPES = ["t-t", "(t+u)-t", "t-u", "(t-t)+u", "neg(t)-neg(t)", "max(max(t,u),t)", "reduce(t-t)", "min(t,t)-free",
+                    "t-t:scalar", "t+neg(t)"]
+
+
+def gen_nonfinite(rng, k, rot):
+    """Ground tensors holding -inf (cells and whole rows), +inf and nan, combined with add/sub/neg only or with
+    max/min only (sums and lattice ops are order-independent on these values; mixing them is not).  The
+    immediate build computes t - t = nan at every infinite cell; a deferred route must do the same.  Reference
+    = the eager build (nan == nan, inf == inf exactly); Lean's XR spec is skipped here."""
+    shape = NONFINITE_SHAPES[k] if k < len(NONFINITE_SHAPES) else NONFINITE_SHAPES[(k + rot) % len(NONFINITE_SHAPES)]
+    ctx = gen_ctx(rng)
+    names = list(ctx)
+
+    def tensor(ns):
+        tt = gen_terms.gen_tensor(rng, ctx, "real", names=ns)
+        d = tt[4].astype(np.float64).copy()
+        flat = d.reshape(-1)
+        for j in range(flat.size):
+            r = rng.random()
+            if r < 0.25:
+                flat[j] = -np.inf
+            elif r < 0.33:
+                flat[j] = np.inf
+            elif r < 0.38:
+                flat[j] = np.nan
+        if d.ndim >= 1 and d.shape[0] > 1 and rng.random() < 0.3:
+            d[0] = -np.inf                                   # a whole row of -inf (log-probability tables)
+        if not np.isinf(d).any():
+            d.reshape(-1)[0] = -np.inf
+        return tt[:4] + (d,)
+    ns = [n for n in names if rng.random() < 0.6]
+    if shape == "t-t:scalar":
+        ns = []
+    t_ = tensor(ns)
+    u_ = tensor([n for n in names if rng.random() < 0.6])
+    S = lambda a, b: ("binary", "sub", a, b)
+    A = lambda a, b: ("binary", "add", a, b)
+    if shape in ("t-t", "t-t:scalar"):
+        r = S(t_, t_)
+    elif shape == "(t+u)-t":
+        r = S(A(t_, u_), t_)
+    elif shape == "t-u":
+        r = S(t_, u_)
+    elif shape == "(t-t)+u":
+        r = A(S(t_, t_), u_)
+    elif shape == "neg(t)-neg(t)":
+        r = S(("unary", "neg", t_), ("unary", "neg", t_))
+    elif shape == "max(max(t,u),t)":
+        r = ("binary", "max", ("binary", "max", t_, u_), t_)
+    elif shape == "reduce(t-t)":
+        r = S(t_, t_)
+        if ns:
+            r = ("reduce", "add", r, (ns[0],), ())
+    elif shape == "min(t,t)-free":
+        r = ("binary", "min", t_, t_)
+    else:
+        r = A(t_, ("unary", "neg", t_))
+    return ctx, r, {"__approx__": 1.0, "__nonfinite__": 1.0}
+
+
 def cases(base_seed, n):
     """The seeded case list: [(ctx, recipe, family, env)]; env binds the free real inputs; the pseudo-binding
     "__approx__" marks expressions with inexact ops (compared after rounding).  Families by idx mod 12."""
@@ -999,6 +1063,10 @@ def cases(base_seed, n):
                 out.append((ctx, to_nonneg(recipe), "cnf-grid:nonneg(max-mul carrier)", {}))
             else:
                 out.append((ctx, recipe, "cnf-grid", {}))
+        elif m == 5 and (idx // 12) % 2 == 1:
+            ctx, recipe, env = gen_nonfinite(rng, cnt["nonfinite"], rot)
+            cnt["nonfinite"] += 1
+            out.append((ctx, recipe, "nonfinite-data(-inf/+inf/nan cells, reference eager)", env))
         else:
             ctx = gen_ctx(rng)
             depth = rng.choice([1, 2, 2, 3, 3, 4])
